@@ -78,3 +78,32 @@ SOURCES.append('''def z(a, b):
         a -= 1
     return t, a
 ''')
+
+# composite state variables whose key is itself composite or a negative literal (qualified names with
+# subscripts: the generated state getter/setter must carry proper contexts and re-parse to the same tree)
+SOURCES.append('''def z(a, b):
+    class P:
+        k = 'k'
+    p = P()
+    d = {'k': 0, 1: 0}
+    perm = [1, 0]
+    arr = [0, 0]
+    if a:
+        d[p.k] = b
+        arr[perm[0]] = b
+    j = 0
+    while j < 2:
+        arr[perm[j]] = arr[perm[j]] + a
+        j += 1
+    return d, arr
+''')
+SOURCES.append('''def z(a, b):
+    stack = [0, 1]
+    d = {-1.5: 0}
+    if a:
+        stack[-1] = b
+        d[-1.5] = a
+    for i in range(2):
+        stack[-1] = stack[-1] + i
+    return stack, d, stack[-1], stack[-2]
+''')
